@@ -393,7 +393,7 @@ func ruleC10_3(c *Ctx, r *Rep) {
 			}
 		}
 	}
-	r.Floor("C10.3", n, 10)
+	r.Floor("C10.3", n, 6)
 }
 
 func loopOrdinal(fn *ssa.Function, l *loop) string {
@@ -727,7 +727,7 @@ func ruleC10_6(c *Ctx, r *Rep) {
 				"a waiter/hook map is accessed ("+a.what+") in "+c.Key(f)+" without holding nmu: concurrent registration and wake-up race (lost wake-up or crash)")
 		}
 	}
-	r.Floor("C10.6", n, 52)
+	r.Floor("C10.6", n, 30)
 }
 
 func ruleC10_7(c *Ctx, r *Rep) {
@@ -789,7 +789,7 @@ func ruleC10_7(c *Ctx, r *Rep) {
 			}
 		}
 	}
-	r.Floor("C10.7", n, 5)
+	r.Floor("C10.7", n, 3)
 }
 
 // parentOf: for an inner map obtained by lookup or as a range value, the outer map.
